@@ -276,6 +276,46 @@ def thorough_extra(prop, repo, base_ctxs):
             shutil.rmtree(tmp, ignore_errors=True)
     out["benign_refactors"] = bres
     out["benign_refactors_silent"] = sum(1 for r in bres if r["status"] == "silent")
+    # (d) every repaired defect of this property, un-repaired: the reverse of its `fix:` commit (mutants/revert_<sha>.diff)
+    # applied to the current tree must be reported again
+    commits = []
+    try:
+        for e in json.load(open(os.path.join(VERIF, "known_findings.json")))["findings"]:
+            if e.get("property") == prop and e.get("status") == "fixed" and e.get("commit") and e["commit"] not in commits:
+                commits.append(e["commit"])
+    except (OSError, ValueError, KeyError):
+        pass
+    rres = []
+    for sha in commits:
+        pf = os.path.join(VERIF, "mutants", "revert_%s.diff" % sha)
+        if not os.path.exists(pf):
+            continue
+        tmp = tempfile.mkdtemp(prefix="skv-rev-")
+        try:
+            for name in ("src", "Cargo.toml", "Cargo.lock", "benches"):
+                sp = os.path.join(repo, name)
+                if os.path.isdir(sp):
+                    shutil.copytree(sp, os.path.join(tmp, name))
+                elif os.path.exists(sp):
+                    shutil.copy(sp, os.path.join(tmp, name))
+            r = subprocess.run(["patch", "-p1", "-s", "-f", "-i", pf], cwd=tmp, stdout=subprocess.PIPE, stderr=subprocess.STDOUT, text=True)
+            if r.returncode != 0:
+                rres.append({"reverted_fix": sha, "status": "reverse patch does not apply to the current tree"})
+                continue
+            try:
+                mf, _ = get_facts(tmp, verbose=False)
+            except SystemExit as e:
+                rres.append({"reverted_fix": sha, "status": "extraction failed: %s" % e})
+                continue
+            _, mctx = run_property(prop, "quick", mf, {})
+            new = sorted({v.key for cx in mctx for v in cx.violations} - base_keys)
+            rres.append({"reverted_fix": sha, "status": "reported again" if new else "NOT REPORTED", "new_violations": new[:6]})
+            if not new:
+                print("WARNING: reverting fix %s is not reported by %s" % (sha, prop))
+        finally:
+            shutil.rmtree(tmp, ignore_errors=True)
+    out["reverted_fixes"] = rres
+    out["reverted_fixes_reported"] = sum(1 for r in rres if r["status"] == "reported again")
     return out
 
 
